@@ -100,11 +100,20 @@ def main():
             log('  ' + json.dumps(mm)[:1500])
         return 2
 
+    # second engine (thorough tier only): Kani / CBMC proofs of the leaf invariants this property leans on
+    kani_thread, kani_res = None, {}
+    if a.tier == 'thorough' and spec.get('kani'):
+        import threading
+        kani_thread = threading.Thread(target=run_kani, args=(spec['kani'], kani_res, log))
+        kani_thread.start()
+
     deadline = spec.get('deadline', {}).get(a.tier, 170 if a.tier == 'quick' else 2400)
     init_args = (paths['mir'], paths['repo'], paths['src'], paths['native_dev'], PROP_MODULES_PRESENT(), [k['role'] for k in known], paths if spec.get('cli') else None)
     states, funcs_hit, models_hit = explore.run_jobs(jobs, init_args, nworkers=a.workers, deadline_s=deadline,
                                                      validate_every=spec.get('validate_every', {}).get(a.tier, 20), seed=seed, log=log)
 
+    if kani_thread is not None:
+        kani_thread.join()
     # ---- verdict ----
     os.makedirs(os.path.join(VERIF, 'replays'), exist_ok=True)
     violations, known_hits, disagreements = [], {}, []
@@ -180,6 +189,7 @@ def main():
             concrete_differential=dict(inputs=tv_res['n'], mismatches=0, families=list(spec.get('tv', ('front',)))),
             encoding_disagreements=len(disagreements) + len(tv_mis),
             known_findings=[dict(role=k, **v) for k, v in known_hits.items()],
+            kani=kani_res or None,
             violations=violations[:10]),
         assumptions=spec['assumptions'], wall_s=round(time.time() - t0, 1), violations=len(violations))
     os.makedirs(os.path.join(VERIF, 'evidence'), exist_ok=True)
@@ -217,11 +227,43 @@ def main():
         rc = rc or 2
     if unenc:
         rc = rc or 2
+    if kani_res and kani_res.get('failed'):
+        log(f"KANI-FAILED: {kani_res['failed']} (second engine disagrees on a leaf invariant; see evidence.kani) - no verdict from this run")
+        rc = rc or 2
     nerr = sum(s.by_status.get('error', 0) for s in states)
     if nerr:
         log(f'ENGINE-ERROR: {nerr} paths ended in a harness/engine exception (broken check, no verdict)')
         rc = rc or 2
     return rc
+
+
+def run_kani(harnesses, res, log):
+    """cargo kani on /verif/kani (instantiated under .build with the repository path in use); SUCCESSFUL is required per harness"""
+    import subprocess, shutil, re
+    t0 = time.time()
+    src = os.path.join(build.BUILD, 'kani-src')
+    shutil.rmtree(src, ignore_errors=True)
+    shutil.copytree(os.path.join(VERIF, 'kani'), src, ignore=shutil.ignore_patterns('Cargo.lock', 'target'))
+    toml = open(os.path.join(src, 'Cargo.toml')).read().replace('/repo/chiritori', os.path.join(build.REPO, 'chiritori'))
+    open(os.path.join(src, 'Cargo.toml'), 'w').write(toml)
+    shutil.copy(os.path.join(build.REPO, 'Cargo.lock'), os.path.join(src, 'Cargo.lock'))
+    res.update(harnesses={}, failed=[], engine='cargo kani 0.68 / CBMC 6.11 (cadical)', bounds='ASCII texts of 7 bytes over {blank, tab, line break, x}, every position 0..=7, unwind 10')
+    for h in harnesses:
+        cmd = ['cargo', 'kani', '--target-dir', os.path.join(build.BUILD, 'kani'), '--output-format', 'terse', '--harness', h]
+        try:
+            r = subprocess.run(['bash', '-c', 'ulimit -v 16000000; exec "$@"', 'x'] + cmd, cwd=src, env=dict(os.environ, CARGO_NET_OFFLINE='true'),
+                               stdout=subprocess.PIPE, stderr=subprocess.STDOUT, timeout=1500)
+            out = r.stdout.decode(errors='replace')
+            okv = 'VERIFICATION:- SUCCESSFUL' in out and 'Complete - 1 successfully verified harnesses, 0 failures' in out
+            m = re.search(r'Verification Time: ([0-9.]+)s', out)
+            res['harnesses'][h] = dict(status='SUCCESSFUL' if okv else ('FAILED' if 'VERIFICATION:- FAILED' in out else 'NOT-DISCHARGED'),
+                                       cbmc_time_s=float(m.group(1)) if m else None, tail=out.strip().split('\n')[-3:] if not okv else None)
+            if 'VERIFICATION:- FAILED' in out:
+                res['failed'].append(h)
+        except subprocess.TimeoutExpired:
+            res['harnesses'][h] = dict(status='NOT-DISCHARGED', note='timeout 1500 s')
+        log(f"  kani {h}: {res['harnesses'][h]['status']} ({res['harnesses'][h].get('cbmc_time_s')} s)")
+    res['wall_s'] = round(time.time() - t0, 1)
 
 
 def PROP_MODULES_PRESENT():
